@@ -105,3 +105,39 @@ def check(F, rep, rid, want_func, floor, what):
     if n < floor:
         raise AnalysisBroken("%s: only %d lower/upper mirror pairs found (floor %d)" % (rid, n, floor))
     return n
+
+
+def copy_like_to_like(F, rep, rid, want_cls, floor):
+    """Copy constructors: a member initialised from a member of the object being copied is initialised from the member of
+    the SAME name (hard_upper_boundaries(g.hard_upper_boundaries), never g.hard_lower_boundaries)."""
+    from .facts import AnalysisBroken
+    from . import expr as X
+    n = 0
+    seen = set()
+    for f in F.funcs.values():
+        if not f.ctor or "/src/" not in f.file or not want_cls(f.cls or "") or len(f.params) != 1:
+            continue
+        pt = f.typestr(f.params[0]["t"])
+        base = (f.cls or "").split("<")[0]
+        if base not in pt or "&" not in pt:
+            continue
+        pd = f.params[0]["d"]
+        for it in f.inits:
+            m = it.get("member")
+            e = it.get("e") or it.get("init")
+            if not m or e is None or not it.get("written"):
+                continue
+            srcs = [x for x in f.walk(e) if x["k"] == "MemberExpr" and X.kids(x) and X.strip(X.kids(x)[0])["k"] == "DeclRefExpr" and X.strip(X.kids(x)[0]).get("d") == pd]
+            if len(srcs) != 1:
+                continue
+            key = "%s|%s" % (f.q.split("<")[0], m)
+            if key in seen:
+                continue
+            seen.add(key)
+            n += 1
+            ok = srcs[0].get("n") == m
+            rep.add(rid, "copy|" + key, f.loc(), "%s: member `%s` is copied from `%s.%s`" % (f.q, m, f.params[0]["n"], srcs[0].get("n")), ok,
+                    detail="the copy carries another member's value under this member's name", func=f.q)
+    if n < floor:
+        raise AnalysisBroken("%s: only %d member-wise copies found in copy constructors (floor %d)" % (rid, n, floor))
+    return n
